@@ -38,7 +38,7 @@ def floors(tier):
     return {"evaluations": 100 if q else 1500, "distinct_nontrivial": 40 if q else 600, "parallel_runs": 100 if q else 1500,
             "set:completion_orders": 3, "workers:1": 5, "workers:2": 5, "workers:3": 5, "workers:5": 5, "workers:16": 5, "workers:len+7": 5,
             "cli_triples": 2 if q else 12, "len>=50": 6 if q else 100, "len=50": 2 if q else 30, "len=49": 2 if q else 30,
-            "monitor:_extend_path_sections": 200 if q else 3000, "kernels_with_label_comment_directive_lines": 1 if q else 30, "small_dense_kernels": 30 if q else 500, "reconvergent_kernels": 8 if q else 150}
+            "monitor:_extend_path_sections": 200 if q else 3000, "kernels_with_label_comment_directive_lines": 1 if q else 30, "small_dense_kernels": 30 if q else 500, "reconvergent_kernels": 8 if q else 150, "manypaths_kernels": 1 if q else 4, "manypaths_cycles": 1000 if q else 4000}
 
 
 def plan(tier, seed):
@@ -50,6 +50,9 @@ def plan(tier, seed):
     # multi-process one is forced for comparison
     for i in range(4 if q else 16):
         specs.append({"kind": "gen", "isa": "x86" if i % 2 == 0 else "aarch64", "kernels": 10 if q else 40, "delay_seeds": 1, "small": True})
+    # a recurrence with about a thousand cycles (every member is the root of hundreds of paths): result sets of that size
+    for i in range(1 if q else 4):
+        specs.append({"kind": "manypaths", "isa": "aarch64" if (i + seed) % 2 == 0 else "x86", "stages": 10})
     for i in range(2 if q else 6):
         specs.append({"kind": "cli", "isa": "x86" if i % 2 == 0 else "aarch64", "triples": 1 if q else 2})
     return specs
@@ -346,13 +349,58 @@ def run_cli(spec, R):
                 R.violation("cli/no-lcd-report", "report has no LCD section", case)
 
 
+def manypaths_kernel(isa, stages, total=50):
+    L = []
+    for i in range(stages):
+        if isa == "aarch64":
+            L += ["fadd d0, d1, d2", "fadd d1, d0, d9", "fmul d2, d0, d8"]
+        else:
+            L += ["vaddsd %xmm1, %xmm2, %xmm0", "vaddsd %xmm0, %xmm9, %xmm1", "vmulsd %xmm0, %xmm8, %xmm2"]
+    k = 0
+    while len(L) < total:
+        L.insert((k * 7) % len(L), ("add x%d, x20, x21" % (3 + k % 5)) if isa == "aarch64" else ("leaq (%%r12,%%r13), %%r%d" % (8 + k % 4)))
+        k += 1
+    return "\n".join(L) + "\n"
+
+
+def run_manypaths(spec, R):
+    isa = spec["isa"]
+    arch = "tx2" if isa == "aarch64" else "zen2"
+    text = manypaths_kernel(isa, spec["stages"])
+    case = {"kind": "manypaths", "isa": isa, "arch": arch, "stages": spec["stages"]}
+    try:
+        with time_limit(420):
+            seq, _, n = run_lcd(isa, None, None, arch, text, 10 ** 9, None)
+            par, timed_out, _ = run_lcd(isa, None, None, arch, text, 1, 16)
+    except CaseTimeout:
+        R.inconclusive += 1
+        R.case()
+        return
+    except Exception as e:  # noqa
+        R.exception(e, case)
+        R.case()
+        return
+    R.count("manypaths_kernels")
+    R.count("manypaths_cycles", len(seq))
+    R.count("parallel_runs")
+    if timed_out:
+        R.violation("timed-out-without-timeout", "timed_out set although the timeout is -1", case)
+    if par != seq:
+        R.violation(diff_key(seq, par), "multi-process search with 16 workers differs from the single-process search on a recurrence with %d cycles: %s"
+                    % (len(seq), diff_text(seq, par)), case)
+    R.case(digest(["manypaths", isa, spec["stages"]]), nontrivial=len(seq) >= 2)
+
+
 def run_shard(spec, R):
-    {"gen": run_gen, "cli": run_cli}[spec["kind"]](spec, R)
+    {"gen": run_gen, "cli": run_cli, "manypaths": run_manypaths}[spec["kind"]](spec, R)
 
 
 def replay(case, R):
     from osaca.semantics import MachineModel
 
+    if case["kind"] == "manypaths":
+        run_manypaths(case, R)
+        return
     if case["kind"] != "gen":
         R.count("replay_cli_not_supported")
         return
